@@ -930,3 +930,89 @@ def value_sources(prog, body, op, depth=5, _seen=None):
         elif og[0] == "rv":
             out.append(("rv", og[1][0], body.short))
     return out
+
+
+# --------------------------------------------------------------------------- linear forms over one unknown
+
+def lin(body, op, depth=10):
+    """affine abstraction of an integer operand:  [(k, base, c), ...]  meaning the value is max over the list of
+    k*base + c, where base is a canonical role string (None for a constant).  Returns None when the operand is not
+    affine in at most one unknown.  Understands copies, integer casts, checked/unchecked + - * << with constants,
+    and core::cmp::max."""
+    if depth < 0:
+        return None
+    ci = const_int(op)
+    if ci is not None:
+        return [(0, None, ci)]
+    p = op_place(op)
+    if p is None:
+        return None
+
+    def unknown():
+        return [(1, "|".join(sorted(value_roles(body, op))), 0)]
+    if len(p) == 2 and p[1] == ".0":
+        ds = [rv for (bb, jj, rv) in body.defs_of(p[0]) if jj != "term"]
+        if len(ds) == 1 and ds[0][0] == "bin" and ds[0][1].endswith("WithOverflow"):
+            return _lin_bin(body, ds[0][1][:-12], ds[0][2], ds[0][3], depth, unknown)
+        return unknown()
+    if len(p) != 1:
+        if all(e == "*" for e in p[1:]):
+            # deref of a reference to a local: follow the reference
+            ds = [rv for (bb, jj, rv) in body.defs_of(p[0]) if jj != "term"]
+            if ds and all(d[0] == "ref" and len(d[2]) == 1 for d in ds) and len(set(d[2][0] for d in ds)) == 1:
+                return lin(body, ["c", [ds[0][2][0]]], depth - 1)
+        return unknown()
+    if 1 <= p[0] <= body.argc:
+        if not [1 for (bb, jj, rv) in body.defs_of(p[0])]:
+            return [(1, "arg:%d" % p[0], 0)]
+    ds = body.defs_of(p[0])
+    if len(ds) != 1:
+        return unknown()
+    (bb, jj, rv) = ds[0]
+    if jj == "term":
+        nm = callee(rv)
+        if re.search(r"cmp::max$|cmp::Ord::max$|Ord>::max$", nm) and len(rv["args"]) == 2:
+            a, b_ = lin(body, rv["args"][0], depth - 1), lin(body, rv["args"][1], depth - 1)
+            if a is None or b_ is None:
+                return None
+            return a + b_
+        return unknown()
+    if rv[0] == "use":
+        return lin(body, rv[1], depth - 1)
+    if rv[0] == "cast":
+        return lin(body, rv[2], depth - 1)
+    if rv[0] == "bin":
+        return _lin_bin(body, rv[1].replace("Unchecked", ""), rv[2], rv[3], depth, unknown)
+    return unknown()
+
+
+def _lin_bin(body, op, x, y, depth, unknown):
+    a, b_ = lin(body, x, depth - 1), lin(body, y, depth - 1)
+    if a is None or b_ is None or len(a) != 1 or len(b_) != 1:
+        return unknown() if op not in ("Add", "Sub", "Mul", "Shl") else None
+    (ka, ba, ca), (kb, bb, cb) = a[0], b_[0]
+    if op == "Add":
+        if ka and kb and ba != bb:
+            return unknown()
+        return [(ka + kb, ba or bb, ca + cb)]
+    if op == "Sub":
+        if ka and kb:
+            if ba == bb:
+                return [(ka - kb, ba if ka != kb else None, ca - cb)]
+            if ca == 0 and cb == 0 and ka == 1 and kb == 1:
+                return [(1, "diff(%s,%s)" % (ba, bb), 0)]
+            return unknown()
+        return [(ka - kb, ba or bb, ca - cb)]
+    if op == "Mul":
+        if ka and kb:
+            return unknown()
+        if kb == 0:
+            return [(ka * cb, ba, ca * cb)]
+        return [(kb * ca, bb, cb * ca)]
+    if op == "Shl":
+        if ka == 0 and kb == 0:
+            return [(0, None, ca << cb)]
+        if kb == 0:
+            return [(ka << cb, ba, ca << cb)]
+        return unknown()
+    return unknown()
